@@ -19,6 +19,9 @@ type Node struct {
 	Attr     []xml.Attr
 	Children []*Node
 	Text     string
+	// DupAttr is set by FromReader when a start element carried the same
+	// attribute name twice (encoding/xml does not reject that itself).
+	DupAttr bool
 }
 
 // IsText reports whether n is character data.
@@ -272,6 +275,13 @@ func FromReader(r xml.TokenReader, start *xml.StartElement) (*Node, error) {
 		}
 	}
 	n := &Node{Name: start.Name, Attr: append([]xml.Attr(nil), start.Attr...)}
+	seenAttr := map[xml.Name]bool{}
+	for _, a := range start.Attr {
+		if seenAttr[a.Name] {
+			n.DupAttr = true
+		}
+		seenAttr[a.Name] = true
+	}
 	for {
 		tok, err := r.Token()
 		if err != nil {
@@ -282,6 +292,9 @@ func FromReader(r xml.TokenReader, start *xml.StartElement) (*Node, error) {
 			t = t.Copy()
 			c, err := FromReader(r, &t)
 			n.Children = append(n.Children, c)
+			if c != nil && c.DupAttr {
+				n.DupAttr = true
+			}
 			if err != nil {
 				return n, err
 			}
